@@ -142,22 +142,22 @@ VarGet(x) ==
   /\ Log(Rec("vget", x, 0, <<>>, None, FALSE), GetV(store, Key(Base(x))), var[x])
 
 Can == Len(hist) < MaxOps
-Next == \/ \E c \in Arrays, v \in Vals : Can /\ ArrPut(c, v)
-        \/ \E c \in Arrays : Can /\ ArrPop(c)
-        \/ \E c \in Arrays, i \in 0..MaxLen, v \in Vals : Can /\ ArrSet(c, i, v)
-        \/ \E c \in Arrays, i \in 0..MaxLen : Can /\ ArrGet(c, i)
-        \/ \E c \in Arrays : Can /\ ArrSize(c)
-        \/ \E d \in Dicts, v \in Vals, via \in BOOLEAN : \E ks \in KeySeqs(DepthOf(d)) :
-              Can /\ (via => DepthOf(d) = 2) /\ DictSet(d, ks, v, via)
-        \/ \E d \in Dicts, via \in BOOLEAN : \E ks \in KeySeqs(DepthOf(d)) :
-              Can /\ (via => DepthOf(d) = 2) /\ DictDelete(d, ks, via)
-        \/ \E d \in Dicts, via \in BOOLEAN : \E ks \in KeySeqs(DepthOf(d)) :
-              Can /\ (via => DepthOf(d) = 2) /\ DictGet(d, ks, via)
-        \/ \E d \in Dicts, op \in {"dset", "ddel", "dget", "getdb"} : \E n \in DepthOf(d) - 1 .. DepthOf(d) + 1 : \E ks \in KeySeqs(n) :
-              Can /\ (IF op = "getdb" THEN n >= DepthOf(d) ELSE n # DepthOf(d)) /\ DictBadArity(d, ks, op)
-        \/ \E x \in Vars, v \in Vals : Can /\ VarSet(x, v)
-        \/ \E x \in Vars : Can /\ VarDelete(x)
-        \/ \E x \in Vars : Can /\ VarGet(x)
+Next == \/ Can /\ \E c \in Arrays, v \in Vals : ArrPut(c, v)
+        \/ Can /\ \E c \in Arrays : ArrPop(c)
+        \/ Can /\ \E c \in Arrays, i \in 0..MaxLen, v \in Vals : ArrSet(c, i, v)
+        \/ Can /\ \E c \in Arrays, i \in 0..MaxLen : ArrGet(c, i)
+        \/ Can /\ \E c \in Arrays : ArrSize(c)
+        \/ Can /\ \E d \in Dicts, v \in Vals, via \in BOOLEAN : \E ks \in KeySeqs(DepthOf(d)) :
+              (via => DepthOf(d) = 2) /\ DictSet(d, ks, v, via)
+        \/ Can /\ \E d \in Dicts, via \in BOOLEAN : \E ks \in KeySeqs(DepthOf(d)) :
+              (via => DepthOf(d) = 2) /\ DictDelete(d, ks, via)
+        \/ Can /\ \E d \in Dicts, via \in BOOLEAN : \E ks \in KeySeqs(DepthOf(d)) :
+              (via => DepthOf(d) = 2) /\ DictGet(d, ks, via)
+        \/ Can /\ \E d \in Dicts, op \in {"dset", "ddel", "dget", "getdb"} : \E n \in DepthOf(d) - 1 .. DepthOf(d) + 1 : \E ks \in KeySeqs(n) :
+              (IF op = "getdb" THEN n >= DepthOf(d) ELSE n # DepthOf(d)) /\ DictBadArity(d, ks, op)
+        \/ Can /\ \E x \in Vars, v \in Vals : VarSet(x, v)
+        \/ Can /\ \E x \in Vars : VarDelete(x)
+        \/ Can /\ \E x \in Vars : VarGet(x)
 Spec == Init /\ [][Next]_vars
 
 ----------------------------------------------------------------------------
